@@ -36,6 +36,12 @@ func init() {
 		for _, n0 := range []int{0, 1, 2} {
 			p.Jobs = append(p.Jobs, Job{Harness: "gonnx.H_C18_newmodel", Case: map[string]interface{}{"nopset": 1, "graph": true, "ninit": 1, "n0": n0, "n1": 0, "raw": false, "rawdt": 6, "ninfo": 0, "anydtype": true}})
 		}
+		// declared extents far beyond the payload (2^62, 2^47, 2^31 x 2^31, 2^33 x 2^33 = overflow)
+		for _, hd := range [][]int{{1 << 62}, {1 << 47}, {1 << 31, 1 << 31}, {1 << 33, 1 << 33}, {1 << 50, 3}} {
+			for _, rawdt := range []int{1, 7} {
+				p.Jobs = append(p.Jobs, Job{Harness: "gonnx.H_C18_newmodel", Case: map[string]interface{}{"nopset": 1, "graph": true, "ninit": 2, "n0": 1, "n1": 8, "raw": true, "rawdt": rawdt, "ninfo": 0, "hugedims": hd}})
+			}
+		}
 		// raw payloads of every element type read from raw_data, lengths around whole elements
 		for _, rawdt := range []int{1, 2, 3, 4, 5, 6, 7, 9, 11, 12, 13} {
 			for _, n1 := range []int{1, 2, 3, 4, 5, 8, 9, 12} {
@@ -48,7 +54,12 @@ func init() {
 		for pos := 0; pos <= 2; pos++ {
 			for _, dead := range []bool{false, true} {
 				for _, name := range []string{"fresh", "FancyNewOperator", "", "relu", "Top%K", "100%", "%s%d"} {
-					p.Jobs = append(p.Jobs, Job{Harness: "gonnx.H_C18_unknown_op", Case: map[string]interface{}{"position": pos, "dead": dead, "name": name}})
+					p.Jobs = append(p.Jobs, Job{Harness: "gonnx.H_C18_unknown_op", Case: map[string]interface{}{"position": pos, "dead": dead, "name": name, "names": "none"}})
+					if name == "FancyNewOperator" || name == "relu" {
+						for _, nm := range []string{"same", "distinct"} {
+							p.Jobs = append(p.Jobs, Job{Harness: "gonnx.H_C18_unknown_op", Case: map[string]interface{}{"position": pos, "dead": dead, "name": name, "names": nm}})
+						}
+					}
 				}
 			}
 		}
